@@ -43,6 +43,7 @@ type Replay struct {
 	Race       []string      `json:"race_reports,omitempty"`
 	// WarmRuns > 0: the failure depends on state the code under test keeps across runs (package-level
 	// caches, pools); replay first re-executes runs WarmStart..WarmStart+WarmRuns-1 of the same seed and worker
+	Unstable  bool `json:"not_exactly_repeatable,omitempty"` // a task blocked in a primitive outside the simulator (channel, sleep)
 	WarmStart int `json:"warm_start,omitempty"`
 	WarmRuns  int `json:"warm_runs,omitempty"`
 }
@@ -225,7 +226,7 @@ func main() {
 			if _, have := sum.FailFiles[s]; !have && len(sum.FailFiles) < *maxFail && *out != "" {
 				o2 := o
 				warm := false
-				if !p.Race {
+				if !p.Race && !o.Unstable {
 					// re-run with tracing for the replay file (a race is reported once per process, so race runs are not repeated here)
 					pl, sc := simrt.ReplaySource(o.PlanRec), simrt.ReplaySource(o.SchedRec)
 					o2 = p.Run(pl, sc, true)
@@ -259,6 +260,7 @@ func main() {
 				}
 				f := filepath.Join(*out, fmt.Sprintf("fail-w%d-r%d-%016x.json", *worker, i, hashStr(s)))
 				rp := mkReplay(*prop, *seed, *worker, i, o2, vs, s)
+				rp.Unstable = o.Unstable
 				if warm {
 					rp.WarmStart, rp.WarmRuns = *start, i-*start
 				}
@@ -371,8 +373,8 @@ func doMinimise(path, outPath string, budget float64) int {
 		}
 		return c, false
 	}
-	if r.WarmRuns > 0 {
-		fmt.Fprintln(os.Stderr, "worker: the failure needs a warm process; not minimised")
+	if r.WarmRuns > 0 || r.Unstable {
+		fmt.Fprintln(os.Stderr, "worker: the failure needs a warm process or is not exactly repeatable; not minimised")
 		return 3
 	}
 	cur, ok := try(cand{r.Plan, r.Sched})
